@@ -87,6 +87,9 @@ def verify_function(index, contracts, c, props_filter=None):
         res.error = str(e)
         return res
     res.ast_hash = fi.ast_hash()
+    if fi.foreign_decorators():
+        res.error = f"unsupported: {fi.key} is decorated with {fi.foreign_decorators()} (the body is not the behaviour)"
+        return res
     ex = Executor(ctx, contracts, STUBS)
     st = State()
     try:
